@@ -168,9 +168,14 @@ def c_oriented(rng):
         # a slice that starts after the first element: non-zero array offset, buffers shared with the parent
         els = gen.elements(kind, rng, n=rng.choice([2, 3, 4, 5]), p_empty=0.1)
         a = rng.randint(1, len(els) - 1)
-        cs = gen.Case(kind, els, [['slice', a, rng.randint(a, len(els)), None]])
+        steps = [['slice', a, rng.randint(a, len(els)), None]]
     else:
-        cs = gen.case(kind, rng, p_empty=0.15)
+        els = gen.elements(kind, rng, p_empty=0.15)
+        steps = gen.random_steps(rng, len(els))
+    if rng.random() < 0.3:
+        # very small / large coordinates (a power-of-two factor, exact): orientation is a matter of sign, not size
+        els = gen.scaled(els, rng.choice(gen.SCALES))
+    cs = gen.Case(kind, els, steps)
     before = pickle.dumps(cs.arr.data.to_pylist())
     out = []
     try:
